@@ -84,7 +84,7 @@ theorem C13_change_state (cx : Ctx) (rec : Rec) (k i : Nat) (nd : Node) (mu : Bo
     (st : St) (r : Ret) (hn : cx.g[i]? = some nd) (hw : (cx.actOf env i nd).wrap = .changeState mu)
     (h : nodeCall cx rec k i a m env st = some r) :
     ∃ r1, nodeCore cx rec k i nd a m { env with sd := env.sd + 1 } st = some r1 ∧ r.res = r1.res ∧ r.st = r1.st ∧
-      r.raw = Ev.enter i a m (cx.rep st.cur) :: Ev.sctor (env.sd + 1) :: r1.raw ++
+      r.raw = Ev.enter i a m (cx.rep st.cur) env.ctl :: Ev.sctor (env.sd + 1) :: r1.raw ++
         (if r1.res = .ok ∧ a = .action then [Ev.ssucc (env.sd + 1) (cx.rep r1.st.cur) env.sd] else []) ++
         [Ev.sdtor (env.sd + 1), Ev.exit i r1.res.code (cx.rep r1.st.cur)] := by
   simp only [nodeCall, hn, hw, Option.map_eq_some_iff] at h
@@ -99,7 +99,7 @@ theorem C13_change_action_and_state (cx : Ctx) (rec : Rec) (k i : Nat) (nd : Nod
     (hw : (cx.actOf env i nd).wrap = .changeActionAndState fam mu)
     (h : nodeCall cx rec k i a m env st = some r) :
     ∃ r1, rec i a m { env with fam := fam, sd := env.sd + 1 } st = some r1 ∧ r.res = r1.res ∧ r.st = r1.st ∧
-      r.raw = Ev.enter i a m (cx.rep st.cur) :: Ev.sctor (env.sd + 1) :: r1.raw ++
+      r.raw = Ev.enter i a m (cx.rep st.cur) env.ctl :: Ev.sctor (env.sd + 1) :: r1.raw ++
         (if r1.res = .ok ∧ a = .action then [Ev.ssucc (env.sd + 1) (cx.rep r1.st.cur) env.sd] else []) ++
         [Ev.sdtor (env.sd + 1), Ev.exit i r1.res.code (cx.rep r1.st.cur)] := by
   simp only [nodeCall, hn, hw, Option.map_eq_some_iff] at h
@@ -136,17 +136,17 @@ theorem C13_own_action_sees_new_state (cx : Ctx) (n i : Nat) (nd : Node) (mu : B
 
 theorem C13_change_action (cx : Ctx) (rec : Rec) (k i : Nat) (nd : Node) (fam : Nat) (a : AMode) (m : RMode) (env : Env)
     (st : St) (hn : cx.g[i]? = some nd) (hw : (cx.actOf env i nd).wrap = .changeAction fam) :
-    nodeCall cx rec k i a m env st = (rec i a m { env with fam := fam } st).map (bracket cx i a m st) := by
+    nodeCall cx rec k i a m env st = (rec i a m { env with fam := fam } st).map (bracket cx i a m env.ctl st) := by
   simp [nodeCall, hn, hw]
 
 theorem C13_disable_action (cx : Ctx) (rec : Rec) (k i : Nat) (nd : Node) (a : AMode) (m : RMode) (env : Env)
     (st : St) (hn : cx.g[i]? = some nd) (hw : (cx.actOf env i nd).wrap = .disableAction) :
-    nodeCall cx rec k i a m env st = (nodeCore cx rec k i nd .nothing m env st).map (bracket cx i a m st) := by
+    nodeCall cx rec k i a m env st = (nodeCore cx rec k i nd .nothing m env st).map (bracket cx i a m env.ctl st) := by
   simp [nodeCall, hn, hw]
 
 theorem C13_enable_action (cx : Ctx) (rec : Rec) (k i : Nat) (nd : Node) (a : AMode) (m : RMode) (env : Env)
     (st : St) (hn : cx.g[i]? = some nd) (hw : (cx.actOf env i nd).wrap = .enableAction) :
-    nodeCall cx rec k i a m env st = (nodeCore cx rec k i nd .action m env st).map (bracket cx i a m st) := by
+    nodeCall cx rec k i a m env st = (nodeCore cx rec k i nd .action m env st).map (bracket cx i a m env.ctl st) := by
   simp [nodeCall, hn, hw]
 
 /-- A sequence passes the same environment to every element: a switch inside the first element
@@ -158,22 +158,36 @@ theorem C13_seq_env (rec : Rec) (a : AMode) (m : RMode) (env : Env) (c : Nat) (c
   cases seqAll rec a m env cs r1.st <;> rfl
 
 /-- **Switch scoping, whole trace.**  The trace of every invocation — any grammar, any attachment of
-    `change_action`, `change_action_and_state(s)`, `enable_action`, `disable_action`, any nesting of `at`, `not_at`,
-    `enable`, `disable`, `action< F, … >`, any input, outcome and fuel — is accepted by the automaton that
-    recomputes, from the rule table alone, the apply mode and the action family of every invocation from
-    its chain of *enclosing* invocations: every rule is entered with exactly the mode its innermost
-    enclosing invocation prescribes, and an action is called only for the innermost open rule and only
-    if that rule has an action in the prescribed family and mode.  Since the frame of an invocation is
+    `change_action`, `change_action_and_state(s)`, `change_control`, `enable_action`, `disable_action`, any nesting of
+    `at`, `not_at`, `enable`, `disable`, `action< F, … >`, `control< C, … >`, any input, outcome and fuel — is accepted by
+    the automaton that recomputes, from the rule table alone, the apply mode, the action family and the control family
+    of every invocation from its chain of *enclosing* invocations: every rule is entered with exactly the mode and
+    through exactly the control its innermost enclosing invocation prescribes, its hooks are run by the control its
+    own frame prescribes (the new one under `change_control`), and an action is called only for the innermost open
+    rule and only if that rule has an action in the prescribed family and mode.  Since the frame of an invocation is
     popped when it returns, nothing a switch did can reach what comes after the rule it is attached to. -/
 theorem C13_switch_scoped (cx : Ctx) (n i : Nat) (a : AMode) (m : RMode) (env : Env) (st : St) (r : Ret)
-    (h : run cx n i a m env st = some r) : EL cx a env.fam r.raw :=
+    (h : run cx n i a m env st = some r) : EL cx a env.fam env.ctl r.raw :=
   run_switch cx n i a m env st r h
 
-/-- For a whole parse: accepted from the single frame "mode `a`, family 0". -/
+/-- For a whole parse: accepted from the single frame "mode `a`, family 0, control 0". -/
 theorem C13_parse_switch (cx : Ctx) (n i : Nat) (a : AMode) (m : RMode) (r : Ret)
     (h : parseTop cx n i a m = some r) :
-    runEnv cx [⟨0, a, 0, false⟩] r.raw = some [⟨0, a, 0, false⟩] :=
-  C13_switch_scoped cx n i a m {} cx.start r h ⟨0, a, 0, false⟩ rfl rfl []
+    runEnv cx [⟨0, a, 0, 0, 0, false⟩] r.raw = some [⟨0, a, 0, 0, 0, false⟩] :=
+  C13_switch_scoped cx n i a m {} cx.start r h ⟨0, a, 0, 0, 0, false⟩ rfl rfl rfl []
+
+/-- **`change_control< C >` attached to rule `i`**: the rule is entered through the old control (which sees the
+    invocation), its `match()` — hooks, own action, sub-rules — runs under the new one. -/
+theorem C13_change_control (cx : Ctx) (rec : Rec) (k i : Nat) (nd : Node) (kc : Nat) (a : AMode) (m : RMode) (env : Env)
+    (st : St) (hn : cx.g[i]? = some nd) (hw : (cx.actOf env i nd).wrap = .changeControl kc) :
+    nodeCall cx rec k i a m env st =
+      (nodeCore cx rec k i nd a m { env with ctl := kc } st).map (bracket cx i a m env.ctl st) := by
+  simp [nodeCall, hn, hw]
+
+/-- **`control< C, R >`** passes the new control to `R` only; the rule itself has no hooks (it is hidden). -/
+theorem C13_control_rule (cx : Ctx) (rec : Rec) (k kc c : Nat) (a : AMode) (m : RMode) (env : Env) (st : St) :
+    body cx rec k (.control kc c) a m env st = rec c a m { env with ctl := kc } st := by
+  simp [body]
 
 /-! ### non-vacuity -/
 
@@ -211,18 +225,44 @@ def swCx : Ctx := { g := swG, inp := #[97], fams := #[#[{ kind := .apply0 }, {},
 
 /-- the run: `n2` inside `at` gets no action, `n2` after it does, `n0` gets its family-1 action -/
 example : (parseTop swCx 8 0 .action .required).map (fun r => (r.res, r.raw.filter (fun e => !e.switchNeutral))) =
-    some (.ok, [.enter 0 .action .required ⟨0, 1, 1⟩, .enter 0 .action .required ⟨0, 1, 1⟩,
-      .enter 1 .action .optional ⟨0, 1, 1⟩, .enter 2 .nothing .optional ⟨0, 1, 1⟩, .exit 2 1 ⟨1, 1, 2⟩, .exit 1 1 ⟨0, 1, 1⟩,
-      .enter 2 .action .optional ⟨0, 1, 1⟩, .apply 2 0 ⟨0, 1, 1⟩ ⟨1, 1, 2⟩, .exit 2 1 ⟨1, 1, 2⟩,
+    some (.ok, [.enter 0 .action .required ⟨0, 1, 1⟩ 0, .enter 0 .action .required ⟨0, 1, 1⟩ 0, .start 0 ⟨0, 1, 1⟩ 0,
+      .enter 1 .action .optional ⟨0, 1, 1⟩ 0, .start 1 ⟨0, 1, 1⟩ 0, .enter 2 .nothing .optional ⟨0, 1, 1⟩ 0, .start 2 ⟨0, 1, 1⟩ 0,
+      .exit 2 1 ⟨1, 1, 2⟩, .exit 1 1 ⟨0, 1, 1⟩,
+      .enter 2 .action .optional ⟨0, 1, 1⟩ 0, .start 2 ⟨0, 1, 1⟩ 0, .apply 2 0 ⟨0, 1, 1⟩ ⟨1, 1, 2⟩, .exit 2 1 ⟨1, 1, 2⟩,
       .apply0 0 0 ⟨1, 1, 2⟩, .exit 0 1 ⟨1, 1, 2⟩, .exit 0 1 ⟨1, 1, 2⟩]) := by decide +kernel
 
 /-- the automaton is not trivial: the same events with the action of `n2` moved inside the look-ahead are rejected,
     and so is an `at` that lets its sub-rule run with actions enabled -/
-example : runEnv swCx [⟨0, .action, 0, false⟩]
-    [.enter 0 .action .required ⟨0, 1, 1⟩, .enter 0 .action .required ⟨0, 1, 1⟩, .enter 1 .action .optional ⟨0, 1, 1⟩,
-     .enter 2 .nothing .optional ⟨0, 1, 1⟩, .apply 2 0 ⟨0, 1, 1⟩ ⟨1, 1, 2⟩] = none := by decide
-example : runEnv swCx [⟨0, .action, 0, false⟩]
-    [.enter 0 .action .required ⟨0, 1, 1⟩, .enter 0 .action .required ⟨0, 1, 1⟩, .enter 1 .action .optional ⟨0, 1, 1⟩,
-     .enter 2 .action .optional ⟨0, 1, 1⟩] = none := by decide
+example : runEnv swCx [⟨0, .action, 0, 0, 0, false⟩]
+    [.enter 0 .action .required ⟨0, 1, 1⟩ 0, .enter 0 .action .required ⟨0, 1, 1⟩ 0, .enter 1 .action .optional ⟨0, 1, 1⟩ 0,
+     .enter 2 .nothing .optional ⟨0, 1, 1⟩ 0, .apply 2 0 ⟨0, 1, 1⟩ ⟨1, 1, 2⟩] = none := by decide
+example : runEnv swCx [⟨0, .action, 0, 0, 0, false⟩]
+    [.enter 0 .action .required ⟨0, 1, 1⟩ 0, .enter 0 .action .required ⟨0, 1, 1⟩ 0, .enter 1 .action .optional ⟨0, 1, 1⟩ 0,
+     .enter 2 .action .optional ⟨0, 1, 1⟩ 0] = none := by decide
+
+/-- `n0 = seq< n1, n2, n3 >`, `n1 = one< 'a' >` with `change_control< C1 >`, `n2 = control< C1, n4 >` (hidden), `n3 = n4 = one< 'a' >`:
+    `n1` is entered through control 0 and its hooks run under control 1; `n4` inside `control<>` is entered through
+    control 1; `n3` after both is back under control 0. -/
+def ccG : Grammar := #[
+  ⟨true, {}, .seq [1, 2, 3]⟩,
+  ⟨true, { wrap := .changeControl 1 }, .atom (.one true [97])⟩,
+  ⟨false, {}, .control 1 4⟩,
+  ⟨true, {}, .atom (.one true [97])⟩,
+  ⟨true, {}, .atom (.one true [97])⟩]
+
+example : (parseTop { g := ccG, inp := #[97, 97, 97] } 8 0 .action .required).map
+    (fun r => (r.res, r.raw.filter (fun e => match e with | .enter .. | .start .. => true | _ => false))) =
+    some (.ok, [.enter 0 .action .required ⟨0, 1, 1⟩ 0, .start 0 ⟨0, 1, 1⟩ 0,
+      .enter 1 .action .optional ⟨0, 1, 1⟩ 0, .start 1 ⟨0, 1, 1⟩ 1,
+      .enter 2 .action .optional ⟨1, 1, 2⟩ 0, .enter 4 .action .optional ⟨1, 1, 2⟩ 1, .start 4 ⟨1, 1, 2⟩ 1,
+      .enter 3 .action .optional ⟨2, 1, 3⟩ 0, .start 3 ⟨2, 1, 3⟩ 0]) := by decide +kernel
+
+/-- the automaton rejects a control that leaks out of its rule: `n3` entered through control 1 -/
+example : runEnv { g := ccG, inp := #[97, 97, 97] } [⟨0, .action, 0, 0, 0, false⟩]
+    [.enter 0 .action .required ⟨0, 1, 1⟩ 0, .start 0 ⟨0, 1, 1⟩ 0, .enter 1 .action .optional ⟨0, 1, 1⟩ 0, .start 1 ⟨0, 1, 1⟩ 1,
+     .exit 1 1 ⟨1, 1, 2⟩, .enter 3 .action .optional ⟨1, 1, 2⟩ 1] = none := by decide
+/-- … and hooks of `n1` run by the old control -/
+example : runEnv { g := ccG, inp := #[97, 97, 97] } [⟨0, .action, 0, 0, 0, false⟩]
+    [.enter 0 .action .required ⟨0, 1, 1⟩ 0, .start 0 ⟨0, 1, 1⟩ 0, .enter 1 .action .optional ⟨0, 1, 1⟩ 0, .start 1 ⟨0, 1, 1⟩ 0] = none := by decide
 
 end Pegtl.C13
